@@ -316,3 +316,37 @@ example : ∃ m : MapBuf, m.dirty = false ∧ (m.flushLike noFaults .flush).2.1 
   · simp [MapBuf.flushLike, BFile.Durable, f]
 
 end Abyss.Buf
+
+/-! ## The crash image: what a copy of the directory holds when flush / sync returns -/
+namespace Abyss.Buf
+
+/-- If the memory view of the three buffered files is the rendered image of the map state
+(which is what every API call maintains: the model's `render` is compared with the real files
+byte for byte on every run), then after a flush / sync that returned Ok the bytes *on disk* are
+exactly that image — for any earlier history of failed flushes. Together with `C02_reopen`
+(the reader recovers the state from the image) this is the statement "a copy of the directory
+taken at that moment opens to exactly the current map state". -/
+theorem C03_crash_image (φ : Faults) (kind : SyncKind) (m : MapBuf) (h : m.OK)
+    (img_htx img_key img_val : List Nat)
+    (hv : m.val.mem = Content.ofList img_val) (hk : m.key.mem = Content.ofList img_key)
+    (hh : m.htx.mem = Content.ofList img_htx)
+    (hok : (m.flushLike φ kind).2.1 = true) :
+    (m.flushLike φ kind).1.val.disk.toList = img_val ∧
+    (m.flushLike φ kind).1.key.disk.toList = img_key ∧
+    (m.flushLike φ kind).1.htx.disk.toList = img_htx := by
+  have hd := (C03_durable φ kind m h hok).1
+  have hm := C16_memory_intact φ kind m
+  obtain ⟨⟨hvb, hvl⟩, ⟨hkb, hkl⟩, ⟨hhb, hhl⟩⟩ := hd
+  obtain ⟨hmv, hmk, hmh⟩ := hm
+  refine ⟨?_, ?_, ?_⟩
+  · rw [← Content.toList_ofList img_val, ← hv, ← hmv]
+    simp only [Content.toList, hvl]
+    exact List.map_congr_left (fun i _ => hvb i)
+  · rw [← Content.toList_ofList img_key, ← hk, ← hmk]
+    simp only [Content.toList, hkl]
+    exact List.map_congr_left (fun i _ => hkb i)
+  · rw [← Content.toList_ofList img_htx, ← hh, ← hmh]
+    simp only [Content.toList, hhl]
+    exact List.map_congr_left (fun i _ => hhb i)
+
+end Abyss.Buf
